@@ -27,7 +27,7 @@ def main():
         na.append({"property_id": pid, "reason": NOT_APPLICABLE.get(pid, PENDING)})
     m = {
         "version": 1,
-        "setup_cmd": "cd harness && CARGO_NET_OFFLINE=true cargo build --offline --profile verif --bins",
+        "setup_cmd": "(cd harness && CARGO_NET_OFFLINE=true cargo build --offline --profile verif --bins) && (cd harness_nolog && CARGO_NET_OFFLINE=true cargo build --offline --profile verif)",
         "hooks": {
             "guard": "momtrop_verif",
             "enable": "no source hooks: the harness observes through public API only (serde of SampleGenerator, Metadata, momtrop's own `log` feature, a user-supplied MomTropFloat tracking scalar, catch_unwind); the guard name is reserved and unused",
